@@ -340,7 +340,12 @@ def mutate(rng, cd, n):
             # declare in a class an operation of an interface it realises (what the shipped ProtocolStack diagram does)
             for i in cd.inheritence.values():
                 if i.CLASS_TO_ID == cid and i.CLASS_FROM_ID in cd.classes and cd.classes[i.CLASS_FROM_ID].OPERATIONS:
-                    c.OPERATIONS.append(copy.deepcopy(rng.choice(cd.classes[i.CLASS_FROM_ID].OPERATIONS)))
+                    cp = copy.deepcopy(rng.choice(cd.classes[i.CLASS_FROM_ID].OPERATIONS))
+                    if rng.random() < 0.5:      # the same operation, its parameters named differently in the class
+                        for n_, prm in enumerate(cp.PARAMETERS):
+                            prm["name"] = "_own%d" % n_
+                        k += ":renamed-params"
+                    c.OPERATIONS.append(cp)
                     break
         log.append(k)
     return log
@@ -364,6 +369,7 @@ def probe_names(label="TestClassDiagram"):
                  and not (c.IS_ENUM or c.IS_STRUCT or c.PURE_VIRTUAL_INTERFACE or c.AUTOGEN)]
     names += ["explicit-ctor:" + n for n in plainattr[:1]]
     names += ["empty-interface:" + c.NAME for c in cd.classes.values() if c.PURE_VIRTUAL_INTERFACE and c.OPERATIONS]
+    names += ["redeclare-renamed-params"]
     names += ["long-member-names"]
     return names
 
@@ -408,6 +414,27 @@ def apply_probe(cd, probe):
         # the interface keeps its place in the hierarchy but declares no operation of its own any more
         del cd.classes[byname[arg]].OPERATIONS[:]
         return [c.NAME for c in cd.classes.values() if not c.PURE_VIRTUAL_INTERFACE]
+    if kind == "redeclare-renamed-params":
+        # every class that realises an interface declares the interface's first operation itself, with other parameter names
+        # (an operation without parameters gets one, in the interface and in the class)
+        touched = []
+        for i in list(cd.inheritence.values()):
+            if not i.IS_REALIZATION or i.CLASS_TO_ID not in cd.classes or i.CLASS_FROM_ID not in cd.classes:
+                continue
+            c, itf = cd.classes[i.CLASS_TO_ID], cd.classes[i.CLASS_FROM_ID]
+            if not itf.PURE_VIRTUAL_INTERFACE or not itf.OPERATIONS or c.PURE_VIRTUAL_INTERFACE or c.AUTOGEN or c.IS_ENUM or c.IS_STRUCT:
+                continue
+            op = itf.OPERATIONS[0]
+            if not op.PARAMETERS:
+                op.PARAMETERS.append({"const": "", "type": "int", "name": "_value", "modifier": "", "defaultvalue": "", "multiplicity": "", "direction": "in"})
+            if any(o.NAME == op.NAME and len(o.PARAMETERS) == len(op.PARAMETERS) for o in c.OPERATIONS):
+                continue
+            cp = copy.deepcopy(op)
+            for n_, prm in enumerate(cp.PARAMETERS):
+                prm["name"] = "_own%d" % n_
+            c.OPERATIONS.append(cp)
+            touched.append(c.NAME)
+        return sorted(set(touched))
     if kind == "long-member-names":
         touched = []
         for c in cd.classes.values():
